@@ -69,19 +69,4 @@ theorem C06_snapshot_keeps_memory (db : Db) (fs : Fs) (reclaim : Bool) (order : 
   ⟨(snapshotDb_view db fs reclaim order clock hw).1, (snapshotDb_view db fs reclaim order clock hw).2,
    snapshotDb_sameData db fs reclaim order clock hw⟩
 
-/-- non-vacuity + regression witness of the fixed defect (tombstone with a stale disk position):
-`set a; set bb; snapshot; remove a; snapshot reclaim; snapshot; restart` reloads exactly `bb` -/
-example :
-    let db0 : Db := Db.new [116] 1 .newer
-    let s1 := (db0.setValue { key := [97], value := [49], version := -1, opId := 1, resolve := false }).1
-    let s2 := (s1.setValue { key := [98, 98], value := [50, 50], version := -1, opId := 2, resolve := false }).1
-    let (d3, f3, c3) := snapshotDb s2 [] false [[97], [98, 98]] 3
-    let d4 := match d3.removeValue [97] with | some (d, _) => d | none => d3
-    let (d5, f5, c5) := snapshotDb d4 f3 true [[98, 98]] c3
-    let (_, f6, c6) := snapshotDb d5 f5 false [] c5
-    (match (loadDb f6 [116] c6).1 with
-     | .ok m => m.map (fun (k, e) => (k, e.value, e.version))
-     | .panic _ => []) = [([98, 98], [50, 50], 0)] := by
-  decide
-
 end Nun
